@@ -80,7 +80,7 @@ func checkC18(c *Ctx) {
 		"statement and expression node a line: the statement dispatcher, the import loop, the basic-expression dispatcher and each operator level call setStmtCurrentLine on the node on every path to its return; (C18.lines) the three scanners that consume line breaks " +
 		"(lexer line loop, multi-line string literals, multi-line comments) register exactly one line per physical break, CRLF and LFCR counting as one, with the line starting right after the break (step tables extracted by constant propagation); " +
 		"(C18.chain) call frames are popped on every non-error exit and cut back before a handler runs, so a reported chain contains only active calls; (C18.module) each chain entry's native-module test and source line use that entry's own module; " +
-		"(C18.syntax) a syntax error's line number and quoted line are computed from the same cursor. Also: no PopCallFrame in the evaluator is deferred or placed on a branch where an error is known (the chain is rendered after the failing functions returned). A statement's line is searched from line 0; the functions that place the column marker never slice or index the line as a Go string. NOT decided: the caret column arithmetic (East-Asian widths), that FindLineIdx maps a cursor to the right line for all inputs (run-time arithmetic over the registered lines)."
+		"(C18.syntax) a syntax error's line number and quoted line are computed from the same cursor. Also: no PopCallFrame in the evaluator is deferred or placed on a branch where an error is known (the chain is rendered after the failing functions returned). A statement's line is searched from line 0; the functions that place the column marker never slice or index the line as a Go string. NOT decided: the caret column arithmetic (East-Asian widths), that FindLineIdx maps a cursor to the right line for all inputs (run-time arithmetic over the registered lines). In Lexer.parseLine the new line is registered in Lines before any fallible check of that line; every call path pushes its frame (C18.mustcall on the call functions)."
 	R.Assumptions = []string{"Lexer.FindLineIdx returns the last line whose StartIdx <= cursor (baseline tests)", "runtime.CallFrame.SetCurrentLine stores the line"}
 	u := c.Core()
 	u.buildSSA()
@@ -527,6 +527,30 @@ func checkLineBookkeeping(c *Ctx, u *Universe) {
 		}
 		R.check(nBad == 0 && nSteps >= 4, "C18.lines", "pkg/syntax/zh."+name, pos, fmt.Sprintf("%d line-break steps: exactly one line per physical break (CRLF/LFCR as one), starting right after it", nSteps),
 			fmt.Sprintf("%d of %d line-break steps register lines wrongly; first: %s", nBad, nSteps, first))
+	}
+	// a line is registered before anything on it is validated: an error raised while looking at the new line (its
+	// indentation) is reported on that line, so the append to Lines dominates every fallible call of the line loop
+	if f := u.ssaFunc("pkg/syntax", "Lexer.parseLine"); f != nil {
+		var appendStore ssa.Instruction
+		for _, in := range instrsOf(f) {
+			if st, ok := in.(*ssa.Store); ok {
+				if fa, ok := st.Addr.(*ssa.FieldAddr); ok && fieldAddrName(fa) == "Lexer.Lines" {
+					appendStore = st
+				}
+			}
+		}
+		nF := 0
+		for _, in := range instrsOf(f) {
+			call, ok := in.(*ssa.Call)
+			if !ok || errResult(call) == nil {
+				continue
+			}
+			nF++
+			R.check(appendStore != nil && dominatesInstr(appendStore, in), "C18.lines", "pkg/syntax.Lexer.parseLine:"+siteName(u, f, call)+":line-registered-first", u.pos(call.Pos()), "the new line is registered before this check can fail", "a check of the new line can fail before the line is registered in Lines: the syntax error is reported one line too early (header says line N-1, quoted text is line N)")
+		}
+		if nF == 0 {
+			R.viol("C18.lines", "pkg/syntax.Lexer.parseLine:fallible-calls", u.pos(f.Pos()), "no fallible call found in the line loop")
+		}
 	}
 	// the lexer's own line loop: one LineInfo per cycle, pair consumed together, start = cursor after the break
 	if f := u.ssaFunc("pkg/syntax", "Lexer.parseLine"); f != nil {
